@@ -357,7 +357,7 @@ fn context_section(arch: Arch, r: &Regs, rng: &mut Xoshiro) -> Section {
             c.rdi = r.sp;
             c.r12 = rng.next_u64();
             if let Some(a) = r.near {
-                let flipped = rng.below(2) == 0;
+                let flipped = rng.below(2) == 0 && a < u64::MAX - 0xffff;
                 let mut o = |k: u64| {
                     let v = a.wrapping_add(k * 8).wrapping_add(rng.below(64) as u64);
                     if flipped {
@@ -598,8 +598,11 @@ pub fn gen_world(opts: &WorldOpts) -> World {
             lr: pick_ret(&mut rng),
             near: None,
         };
-        if rng.below(2) == 0 {
-            r.near = Some(sbase + (slen as u64 / 2 & !7));
+        match rng.below(6) {
+            0..=2 => r.near = Some(sbase + (slen as u64 / 2 & !7)),
+            // into the (optional) no-access memory-info region at the very top of the address space
+            3 if adv => r.near = Some(u64::MAX - 0x8ff),
+            _ => {}
         }
         let shape_name: &'static str;
         match shape {
